@@ -8,28 +8,88 @@ package etype
 
 //@ func (crypto/etype.EType).GetETypeID(e) (r)
 //@   pure
+//@   trusted_frame interface frame; implementations delegate to the family functions
 //@   ensures r == et_id(tagof(e))
 //@ func (crypto/etype.EType).GetHashID(e) (r)
 //@   pure
+//@   trusted_frame interface frame; implementations delegate to the family functions
 //@   ensures r == et_cksumid(tagof(e))
 //@ func (crypto/etype.EType).GetKeyByteSize(e) (r)
 //@   pure
+//@   trusted_frame interface frame; implementations delegate to the family functions
 //@   ensures r == et_keybytes(tagof(e))
 //@ func (crypto/etype.EType).GetKeySeedBitLength(e) (r)
 //@   pure
+//@   trusted_frame interface frame; implementations delegate to the family functions
 //@   ensures r == et_seedbits(tagof(e))
 //@ func (crypto/etype.EType).GetHMACBitLength(e) (r)
 //@   pure
+//@   trusted_frame interface frame; implementations delegate to the family functions
 //@   ensures r == et_hmacbits(tagof(e))
 //@ func (crypto/etype.EType).GetMessageBlockByteSize(e) (r)
 //@   pure
+//@   trusted_frame interface frame; implementations delegate to the family functions
 //@   ensures r == et_msgblock(tagof(e))
 //@ func (crypto/etype.EType).GetCypherBlockBitLength(e) (r)
 //@   pure
+//@   trusted_frame interface frame; implementations delegate to the family functions
 //@   ensures r == et_blockbits(tagof(e))
 //@ func (crypto/etype.EType).GetConfounderByteSize(e) (r)
 //@   pure
+//@   trusted_frame interface frame; implementations delegate to the family functions
 //@   ensures r == et_confounder(tagof(e))
 //@ func (crypto/etype.EType).GetHashFunc(e) (r)
 //@   pure
+//@   trusted_frame interface frame; implementations delegate to the family functions
 //@   ensures r == et_hashfn(tagof(e))
+
+// Data path. et_encok / et_decok / et_ctlen are the size rules of the four families
+// (RFC 3961 des3: 24-byte key, whole blocks; RFC 3962 / RFC 8009: AES-CTS, any length, one block minimum
+// on decryption; RFC 4757: 16-byte key, any length).
+
+//@ func (crypto/etype.EType).EncryptData(e, key, data) (iv, ct, err)
+//@   pure
+//@   trusted_frame interface frame; implementations delegate to the family functions
+//@   requires len(data) > 0
+//@   ensures err == nil <==> et_encok(tagof(e), len(key), len(data))
+//@   ensures err == nil ==> len(ct) == et_ctlen(tagof(e), len(data))
+//@ func (crypto/etype.EType).DecryptData(e, key, data) (pt, err)
+//@   pure
+//@   trusted_frame interface frame; implementations delegate to the family functions
+//@   ensures err == nil <==> et_decok(tagof(e), len(key), len(data))
+//@   ensures err == nil ==> len(pt) == len(data)
+//@   ensures err != nil ==> len(pt) == 0
+//@ func (crypto/etype.EType).DeriveKey(e, protocolKey, usage) (k, err)
+//@   pure
+//@   trusted_frame interface frame; implementations delegate to the family functions
+//@   requires len(usage) > 0
+//@ func (crypto/etype.EType).DeriveRandom(e, protocolKey, usage) (k, err)
+//@   pure
+//@   trusted_frame interface frame; implementations delegate to the family functions
+//@   requires len(usage) > 0
+//@   ensures err == nil && tagof(e) == typeid("crypto.Des3CbcSha1Kd") ==> len(k) == 21
+//@ func (crypto/etype.EType).RandomToKey(e, b) (k)
+//@   pure
+//@   trusted_frame interface frame; implementations delegate to the family functions
+//@   requires tagof(e) == typeid("crypto.Des3CbcSha1Kd") ==> len(b) >= 21
+//@ func (crypto/etype.EType).VerifyIntegrity(e, protocolKey, ct, pt, usage) (ok)
+//@   pure
+//@   trusted_frame interface frame; implementations delegate to the family functions
+//@ func (crypto/etype.EType).GetChecksumHash(e, protocolKey, data, usage) (h, err)
+//@   pure
+//@   trusted_frame interface frame; implementations delegate to the family functions
+//@   ensures err == nil ==> len(h) == et_hmacbits(tagof(e)) / 8
+//@ func (crypto/etype.EType).VerifyChecksum(e, protocolKey, data, chksum, usage) (ok)
+//@   pure
+//@   trusted_frame interface frame; implementations delegate to the family functions
+//@ func (crypto/etype.EType).DecryptMessage(e, key, ciphertext, usage) (pt, err)
+//@   pure
+//@   trusted_frame interface frame; implementations delegate to the family functions
+//@   ensures err != nil ==> len(pt) == 0
+//@ func (crypto/etype.EType).EncryptMessage(e, key, message, usage) (iv, ct, err)
+//@   pure
+//@   trusted_frame interface frame; implementations delegate to the family functions
+//@ func (crypto/etype.EType).StringToKey(e, secret, salt, s2kparams) (k, err)
+//@   pure
+//@   requires tagof(e) == typeid("crypto.Des3CbcSha1Kd") ==> len(secret) + len(salt) > 0
+//@   trusted_frame interface frame; implementations delegate to the family functions
